@@ -9,6 +9,16 @@
 // the funds do not suffice, and for -raw: outputs / outpoints / sequences / version / lock time
 // untouched. Exit code and presence of files are part of the observation. The monitor itself
 // imports no gocoin package.
+//
+// Files: main.go (driver, per-run observation), wallet.go (wallet configurations, process control),
+// gen.go (balance folders, requests, raw transactions), oracle.go (the judgement), selftest.go
+// (oracle self-test with reference signers).
+//
+// Classes recorded in /verif/known/C13.json (unchanged tree), cause in /repo:
+//   msg-output/wrong-script/len76                         lib/btc/funcs.go:256  WritePutLen `<=` OP_PUSHDATA1
+//   wrote-tx-although-unfundable/amount-overflow          lib/btc/funcs.go:325,348; wallet/send.go:50,90 (uint64 wrap)
+//   wrote-tx-although-unfundable/f-first-amount-below-fee wallet/send.go:46     `am -= curFee` underflow
+//   no-tx/hang-in-sign_tx/minsig+rfc6979                  wallet/signtx.go:118-139 + lib/btc/ecdsa.go:55-65
 package main
 
 import (
@@ -221,7 +231,7 @@ func runStep(bin, dir string, w *wcfg, st *state, q *request, step int) *outcome
 	mayHang := q.MinSig != 0 && q.Rfc != 0
 	wd := 120 * time.Second
 	if mayHang {
-		wd = 15 * time.Second
+		wd = 10 * time.Second // a normal run takes some 20 ms
 	}
 	pr := runWallet(bin, dir, args, wd)
 	if os.Getenv("VERIF_DEBUG") != "" && pr.wall > time.Second {
@@ -293,7 +303,7 @@ func runStep(bin, dir string, w *wcfg, st *state, q *request, step int) *outcome
 			if !confirmed {
 				// reproduce once with a three times longer watchdog before calling it a hang
 				os.WriteFile(filepath.Join(dir, "balance", "unspent.txt"), []byte(st.unspTxt), 0o600)
-				pr2 := runWallet(bin, dir, args, 45*time.Second)
+				pr2 := runWallet(bin, dir, args, 30*time.Second)
 				confirmed = pr2.timedOut && strings.Contains(pr2.quitStack, "main.sign_tx")
 			}
 			if confirmed {
